@@ -33,6 +33,8 @@ FIXES = [
  ('C02','color-only from gitconfig disables the side-by-side feature','options/set.rs: `color-only = true` in gitconfig plus side-by-side left the side-by-side feature enabled, adding a line-number gutter to every hunk line'),
  ('C04','not emptied when the maximum line length is 0','delta.rs: with max-line-length 0 (also set by side-by-side + --wrap-max-lines=unlimited) a line containing invalid UTF-8 was replaced by an empty line'),
  ('C07','truncate_str stops taking text once the width is used up','ansi/mod.rs: a side-by-side row cut in front of a double-width character inside a styled line was one column too wide, showed non-prefix text, and shifted the right panel by one column'),
+ ('C19','honour --relative-paths','diff_header.rs: for sections without ---/+++ lines (mode-only, empty added/deleted file) the name from the `diff --git` line was not relativized under --relative-paths; the header showed the repository-relative name and its hyperlink pointed at <cwd>/<repo-relative name>'),
+ ('C14','no second file header for a mode-only change','diff_header.rs: in `git log -p` output a mode-only file got a second, bare file header when the next commit\'s first `diff` line arrived'),
 ]
 out = []
 for prop, pat, what in FIXES:
